@@ -10,8 +10,9 @@
      insert, append, extend, xs[i] = v, xs[a:b] = vs (step 1, incl. b < a), xs[a:b:k] = vs (the replace-one-at-a-time
      loop), del xs[i], del xs[a:b], del xs[a:b:k], drop_many (sorted descending runs), pop, clear:
      result = lay pre pht cs' post with   Edit cs cs' removed news   (one edit; a chain `Edits` of them for extended
-     slices / drop_many): cells before the window literally unchanged, cells after keep their tokens, new cells are the
-     donors' tokens; WF preserved; separation (C06) preserved;
+     slices / drop_many): cells before the window literally unchanged; of the cells after, only the GAP of the first one
+     (the separators directly adjacent to the window) may differ, all later cells are literally the same (tail_eq); new
+     cells are the donors' tokens; WF preserved; separation (C06) preserved;
    C03_step / C03_history / C03_history_step: the invariant holds after every accepted or refused call of any history
      over the full op language and every accepted call is framed;
    C03_frame_tokens_edit (exact window of one edit) / C03_frame_tokens (any accepted call): tokens that appear or
@@ -110,7 +111,7 @@ Theorem C03_setitem_int :
          (i : Z) (v : donor) (fr : Z) (s' : st) (dl : list donor),
        WF ph pre pht cs post ->
        donors_ok fr (lay pre pht cs post) [v] ->
-       setitem_int {| s_doc := lay pre pht cs post; s_items := map item_of cs |} i v = (s', dl, Ok tt) ->
+       setitem_int {| s_doc := lay pre pht cs post; s_items := map item_of cs |} i false v = (s', dl, Ok tt) ->
        exists (A : list cell) (c : cell) (B : list cell),
          cs = A ++ c :: B /\
          (zlen A = i \/ zlen A = i + zlen cs) /\
@@ -119,6 +120,16 @@ Theorem C03_setitem_int :
           s' = {| s_doc := lay pre pht cs' post; s_items := map item_of cs' |} /\
           WF ph pre pht cs' post /\ Edit cs cs' [c] [d_store v]).
 Proof. exact setitem_int_layout. Qed.
+
+(* xs[i] = xs[i] (the node that is already there): nothing changes at all; a missing index is refused *)
+Theorem C03_setitem_same :
+   forall (s : st) (i : Z) (v : donor),
+       setitem_int s i true v =
+       (s, [v], match list_get_int (s_items s) i with
+                | Ok _ => Ok tt
+                | Err e => Err e
+                end).
+Proof. exact setitem_int_same. Qed.
 
 (* xs[a:b] = vs (step 1): _del_tokens then _insert_tokens on the old item list *)
 Theorem C03_setitem_slice :
@@ -198,21 +209,35 @@ Theorem C03_delitem_ext :
          WF ph pre pht cs' post /\ Edits cs cs' M [] /\ (Sep seps sepsb cs -> Sep seps sepsb cs').
 Proof. exact delitem_ext_layout. Qed.
 
-(* drop_many(indexes): sorted descending, grouped into runs, each run one _del_tokens against the unchanged item list; items = remove_positions *)
+(* drop_many(indexes) for ANY index list: an index out of range is refused before anything is touched; otherwise negative indexes are normalised, duplicates collapsed, and the positions dropped in descending runs *)
 Theorem C03_drop_many :
+   forall (ph : Z) (seps sepsb : list (kind * str)) (pre : list tok) (pht : tok) 
+         (cs : list cell) (post : list tok) (idxs : list Z),
+       WF ph pre pht cs post ->
+       (exists e : exn,
+          drop_many ph {| s_doc := lay pre pht cs post; s_items := map item_of cs |} idxs =
+          ({| s_doc := lay pre pht cs post; s_items := map item_of cs |}, [], Err e)) \/
+       (exists cs' M : list cell,
+          drop_many ph {| s_doc := lay pre pht cs post; s_items := map item_of cs |} idxs =
+          ({| s_doc := lay pre pht cs' post; s_items := map item_of cs' |}, [], Ok tt) /\
+          WF ph pre pht cs' post /\ Edits cs cs' M [] /\ (Sep seps sepsb cs -> Sep seps sepsb cs')).
+Proof. exact drop_many_layout. Qed.
+
+(* drop_many after its validation (distinct positions in range): runs, items = remove_positions *)
+Theorem C03_drop_many_core :
    forall (ph : Z) (seps sepsb : list (kind * str)) (pre : list tok) (pht : tok) 
          (cs : list cell) (post : list tok) (idxs : list Z),
        WF ph pre pht cs post ->
        NoDup idxs ->
        (forall y : Z, In y idxs -> 0 <= y < zlen cs) ->
        exists cs' M : list cell,
-         drop_many ph {| s_doc := lay pre pht cs post; s_items := map item_of cs |} idxs =
+         drop_many_core ph {| s_doc := lay pre pht cs post; s_items := map item_of cs |} idxs =
          ({| s_doc := lay pre pht cs' post; s_items := map item_of cs' |}, [], Ok tt) /\
          WF ph pre pht cs' post /\
          Edits cs cs' M [] /\
          (Sep seps sepsb cs -> Sep seps sepsb cs') /\
          map item_of cs' = remove_positions (sort_desc idxs) (map item_of cs).
-Proof. exact drop_many_layout. Qed.
+Proof. exact drop_many_core_layout. Qed.
 
 (* pop(i): returns exactly the tokens of item i *)
 Theorem C03_pop :
@@ -265,7 +290,7 @@ Theorem C03_history_step :
        LayS ph s0 ->
        Hist ph seps sepsb s0 ops s ->
        (op_ok s o -> run_op ph seps sepsb s o = (s', Ok tt) -> LayS ph s' /\ FrameS ph seps sepsb s s') /\
-       (forall e : exn, op_fresh s o -> run_op ph seps sepsb s o = (s', Err e) -> s' = s).
+       (forall e : exn, op_err_ok s o -> run_op ph seps sepsb s o = (s', Err e) -> s' = s).
 Proof. exact history_step. Qed.
 
 (* token-level reading of one edit: the exact window *)
@@ -278,10 +303,8 @@ Theorem C03_frame_tokens_edit :
        exists X W W' Y : list tok,
          lay pre pht cs post = X ++ W ++ Y /\
          lay pre pht cs' post = X ++ W' ++ Y /\
-         (forall t : tok,
-          In t W' -> In t W \/ is_sep (tkind t) = true \/ (exists b : list tok, In b news /\ In t b)) /\
-         (forall t : tok,
-          In t W -> In t W' \/ is_sep (tkind t) = true \/ (exists c : cell, In c M /\ In t (c_body c))).
+         (forall t : tok, In t W' -> is_sep (tkind t) = true \/ (exists b : list tok, In b news /\ In t b)) /\
+         (forall t : tok, In t W -> is_sep (tkind t) = true \/ (exists c : cell, In c M /\ In t (c_body c))).
 Proof. exact frame_tokens_edit. Qed.
 
 (* token-level reading of any accepted call (chain of edits) *)
@@ -377,7 +400,7 @@ Proof. vm_compute. reflexivity. Qed.
 
 Example C03_history_nonvacuous :
   exists s', Hist 3 ex_seps ex_sepsb (mkst ex_doc ex_items)
-               [RInsert (-1) ex_v 100; RPop 7; RDropMany [2; 0]] s' /\ map fst (s_items s') = [50].
+               [RInsert (-1) ex_v 100; RPop 7; RDropMany [2; 0; -1; 0]] s' /\ map fst (s_items s') = [50].
 Proof.
   eexists. split.
   - eapply H_ok; [| vm_compute; reflexivity |].
@@ -388,7 +411,6 @@ Proof.
       * repeat constructor; cbn; intuition lia.
     + eapply H_err; [exact I | vm_compute; reflexivity |].
       eapply H_ok; [| vm_compute; reflexivity | apply H_nil].
-      split; [|exact I]. split; [repeat constructor; cbn; intuition lia|].
-      intros y Hy. cbn in Hy. cbn. intuition lia.
+      split; exact I.
   - reflexivity.
 Qed.
